@@ -85,6 +85,8 @@ pub struct RunCfg {
     pub twin_same_timing: bool,
     /// twin scripts: the application's polls give up after this long (0 = never)
     pub twin_poll_budget_us: u64,
+    /// twin scripts: publish (QoS 1/2), subscribe and unsubscribe have that timeout too
+    pub twin_request_budget: bool,
     /// twin scripts: Receive Maximum of every CONNACK (0 = none)
     pub twin_receive_max: u16,
     /// writes/flushes never stall or fail; used by timing profiles
@@ -228,6 +230,8 @@ pub struct ConnState {
     pub closed_by_broker: bool,
     // counters
     pub write_blocked_until: u64,
+    /// end of the latest slow-link period (stays set after the link is fast again)
+    pub last_slow_write_until: u64,
     /// time of the first write call that offered the packet now being written
     pub first_offer_t: Option<u64>,
     /// first-offer time of the PINGREQ that is outstanding
@@ -259,6 +263,8 @@ pub struct ConnState {
     pub carry_acks: VecDeque<(u8, u16, Option<u8>)>,
     /// a request was refused locally since the last completed client packet (C19)
     pub refused_since_last_complete: bool,
+    /// when the PINGRESP now waiting in the receive queue became readable
+    pub pingresp_available_t: Option<u64>,
     /// expected deliveries (bmsg index) not yet returned by poll/recv/drive
     pub expect_deliver: VecDeque<usize>,
     /// deliveries the model leaves open (stale client-side QoS 2 state)
@@ -310,6 +316,7 @@ impl ConnState {
             n_flush: 0,
             blocked: Blocked::None,
             write_blocked_until: 0,
+            last_slow_write_until: 0,
             first_offer_t: None,
             pingreq_first_offer: None,
             stall_run: 0,
@@ -329,6 +336,7 @@ impl ConnState {
             owed_acks: VecDeque::new(),
             carry_acks: VecDeque::new(),
             refused_since_last_complete: false,
+            pingresp_available_t: None,
             expect_deliver: VecDeque::new(),
             optional_deliver: Vec::new(),
             last_complete_t: None,
@@ -562,6 +570,8 @@ pub struct World {
     pub twin_mode: bool,
     /// twin scripts: the execution left the comparable part of the script
     pub twin_incomparable: bool,
+    /// this world is the second (cancelled / fragmented) execution of a twin scenario
+    pub second_execution: bool,
     /// position of the program tape at which the (twin) script generation starts
     pub script_start_pos: usize,
     pub last_cancel_idle: bool,
@@ -655,6 +665,7 @@ impl World {
             burn_done: false,
             twin_mode: false,
             twin_incomparable: false,
+            second_execution: false,
             script_start_pos: 0,
             last_cancel_idle: false,
             chunk_mask: None,
@@ -809,6 +820,10 @@ impl World {
                     return;
                 }
                 self.conns[conn].rx_ready.extend(bytes.iter());
+                if self.conns[conn].rx_items.iter().any(|i| matches!(i.meta, RxMeta::PingResp)) && self.conns[conn].pingresp_available_t.is_none() {
+                    // (readable from now on; not recorded when the peer stalls inside a packet)
+                    self.conns[conn].pingresp_available_t = Some(clock::now());
+                }
                 self.kind(20);
                 self.log(|| format!("broker->client c{} {} bytes: {}", conn, bytes.len(), crate::util::hex(&bytes)));
             }
@@ -908,6 +923,12 @@ impl World {
             }
             _ => {}
         }
+    }
+
+    /// Avoidance guard for the open C12 finding (CONNECT needs room behind the retained packets):
+    /// with the guards on, the generator does not fill the arena on purpose.
+    pub fn guards_arena(&self) -> bool {
+        self.cfg.guards
     }
 
     pub fn watchdog_tripped(&self) -> bool {
@@ -1027,6 +1048,7 @@ impl World {
             let n = if self.twin_mode { 3 } else { 5 };
             let d = [clock::US_PER_MS, 300 * clock::US_PER_MS, 700 * clock::US_PER_MS, 2 * clock::US_PER_S, 6 * clock::US_PER_S][self.s_choose(n) as usize];
             self.conns[conn].write_blocked_until = clock::now() + d;
+            self.conns[conn].last_slow_write_until = clock::now() + d;
             self.conns[conn].blocked = Blocked::WriteSlow;
             self.schedule(d, Event::Unblock { conn });
             self.fault("write_slow");
